@@ -151,12 +151,17 @@ func replayChainSync(idx int, line []byte, prop string, seed int, root string, r
 			return
 		}
 		var exp *csObs
+		var derr error
 		if len(st.Exp) > 0 && st.Exp[0] == '{' {
 			exp = new(csObs)
-			json.Unmarshal(st.Exp, exp)
+			derr = json.Unmarshal(st.Exp, exp)
 		} else if si == len(tr.Steps)-1 && len(tr.Exp) > 0 && tr.Exp[0] == '{' {
 			exp = new(csObs)
-			json.Unmarshal(tr.Exp, exp)
+			derr = json.Unmarshal(tr.Exp, exp)
+		}
+		if derr != nil {
+			rep.AddError("trace %d step %d: expectation does not decode: %v", idx, si, derr)
+			return
 		}
 		if exp == nil || !exp.Running {
 			continue
